@@ -56,7 +56,9 @@ def tokens(text, keep_layout=False):
             continue
         m = _RX.match(text, pos)
         if not m:
-            raise LexError(pos, c)
+            err = LexError(pos, c)
+            err.tokens = out            # the tokens before the illegal character
+            raise err
         typ = m.lastgroup
         raw = m.group()
         line = text.count('\n', 0, pos) + 1
